@@ -17,6 +17,7 @@ import common
 from common import enc, dec, err_kind
 from props import c07_hist as H
 from props import c07_zero as Z0
+from props import c07_tr as TR
 
 ID = "C07"
 RULE = ("random expression trees (depth<=3 quick / <=4 thorough) over Laurent polynomials with support in [-4,6] and "
@@ -1066,6 +1067,25 @@ def classify(c, io, drv):
     if e == "eq":
         return "eq-hash"
     return "unclassified"
+
+
+# ----------------------------------------------------------------------------
+# translator: method bodies of lazy_poly.py -> lean/ALV/Gen/C07Src.lean (props/c07_tr.py)
+# ----------------------------------------------------------------------------
+def regenerate(eng=None):
+    return TR.regenerate(eng)
+
+
+def extra_checks(eng):
+    ok, detail, report = TR.selftest()
+    eng.extra["translated"] = {
+        "translator": "harness/props/c07_tr.py -> lean/ALV/Gen/C07Src.lean (shallow: Lean definitions over ZPoly / PyNum / PyVal)",
+        "under_translator": TR.TRANSLATED,
+        "theorems": TR.THEOREMS,
+        "not_translated": TR.NOT_TRANSLATED,
+        "selftest": report,
+    }
+    return [("translator-selftest", ok, detail)]
 
 
 H._IMPL_OTHER.update({"zhist": Z0.impl, "pynum": Z0.impl, "expr": _impl_plain, "laws": _impl_plain, "eq": _impl_plain, "lagrange": _impl_plain})
